@@ -148,6 +148,19 @@ impl Deserializable for Context {
         // read options
         let options = ProofOptions::read_from(source)?;
 
+        // make sure the trace length and the LDE domain size are within the limits enforced by
+        // the constructor
+        let trace_length = trace_info.length();
+        if trace_length > u32::MAX as usize
+            || trace_length.saturating_mul(options.blowup_factor()) > u32::MAX as usize
+        {
+            return Err(DeserializationError::InvalidValue(format!(
+                "trace length {} and blowup factor {} imply an LDE domain which is too big",
+                trace_length,
+                options.blowup_factor()
+            )));
+        }
+
         Ok(Context { trace_info, field_modulus_bytes, options })
     }
 }
